@@ -42,7 +42,7 @@ class G:
         if r < 0.38:
             a, c = self.iexpr(depth + 1)
             self.forms.add("array_element")
-            return f"{rng.choice(e['arrays1'])}({a})", c
+            return f"{rng.choice(e['arrays1'] + e.get('arrays_ro', []))}({a})", c
         if r < 0.44:
             a, c1 = self.iexpr(depth + 1)
             b, c2 = self.iexpr(depth + 1)
@@ -363,6 +363,7 @@ def build_project(seed):
     subs_args = [nm("subs") for _ in range(rng.randint(1, 3))]
     subs_noargs = [nm("subs") for _ in range(rng.randint(1, 2))]
     ext_sub = nm("subs")  # a procedure defined outside the project: kept by name
+    ext_fn = nm("funcs")
     tfn, tsub, ufn, usub = f"tfn{seed % 97}", f"tsub{seed % 97}", f"ufn{seed % 97}", f"usub{seed % 97}"
     labels = [100]
     assoc = [0]
@@ -383,6 +384,9 @@ def build_project(seed):
     L.append(f"module {mod}")
     L.append("implicit none")
     L += ["type :: inner_t", "integer :: q = 0", "contains", f"procedure :: {ufn} => impl_{ufn}", f"procedure :: {usub} => impl_{usub}", "end type inner_t"]
+    # PROTECTED module arrays (attribute / separate statement): elements of them are referenced wherever the module is used
+    L += ["integer, protected :: hist(10) = 0", "integer :: counts(10) = 0", "protected :: counts"]
+    env["arrays_ro"] = ["hist", "counts"]
     L += ["type :: obj_t", "integer :: cnt = 0", "integer :: vals(5) = 0", "type(inner_t) :: inner", "contains",
           f"procedure :: {tfn} => impl_{tfn}", f"procedure :: {tsub} => impl_{tsub}", "end type obj_t"]
     L.append("contains")
@@ -413,6 +417,15 @@ def build_project(seed):
             uenv["arrays1"] = env["arrays1"] + [shadow]
             udecls = [f"integer :: {shadow}(10)"]
             forms.add("local_array_shadows_module_function")
+        # a local array named like an attribute keyword: `value(i) = f(x)` is an assignment
+        kwarr = rng.choice(["value", "target", "save", "pointer", "volatile", "optional", "allocatable", "contiguous"])
+        uenv["arrays1"] = list(uenv["arrays1"]) + [kwarr]
+        udecls = udecls + [f"integer :: {kwarr}(10)"]
+        # an external function: typed by a declaration, EXTERNAL by attribute or by a separate statement
+        if kd != "internal":
+            uenv["funcs"] = list(uenv["funcs"]) + [ext_fn]
+            udecls = udecls + rng.choice([[f"integer, external :: {ext_fn}"], [f"integer :: {ext_fn}", f"external {ext_fn}"], [f"integer :: {ext_fn}", f"external :: {ext_fn}"]])
+            forms.add("external_function_declared_in_unit")
         g = G(rng, uenv)
         body, calls = g.block()
         body += ["10 continue", "20 continue"]
@@ -421,11 +434,11 @@ def build_project(seed):
         if kd == "modsub":
             L += [f"subroutine {uname}(n, arr_arg)", "integer, intent(in) :: n", "integer, intent(inout) :: arr_arg(:)"] + decls + udecls + body + [f"end subroutine {uname}"]
         elif kd == "modfunc" and rng.random() < 0.5:
-            L += [f"function {uname}(n, arr_arg) result(res)", "integer, intent(in) :: n", "integer, intent(inout) :: arr_arg(:)", "integer :: res(3)"] + decls + body + ["res(1) = x", f"end function {uname}"]
+            L += [f"function {uname}(n, arr_arg) result(res)", "integer, intent(in) :: n", "integer, intent(inout) :: arr_arg(:)", "integer :: res(3)"] + decls + udecls + body + ["res(1) = x", f"end function {uname}"]
         elif kd == "modfunc":
             # array-valued function without RESULT clause: uname(i) = ... assigns to the result variable
             forms.add("array_result_without_result_clause")
-            L += [f"function {uname}(n, arr_arg)", "integer, intent(in) :: n", "integer, intent(inout) :: arr_arg(:)", f"integer :: {uname}(3)"] + decls + body + [f"{uname}(1) = x", f"{uname}(2) = {uname}(1) + 1", f"end function {uname}"]
+            L += [f"function {uname}(n, arr_arg)", "integer, intent(in) :: n", "integer, intent(inout) :: arr_arg(:)", f"integer :: {uname}(3)"] + decls + udecls + body + [f"{uname}(1) = x", f"{uname}(2) = {uname}(1) + 1", f"end function {uname}"]
         elif kd == "internal":
             g2 = G(rng, env)
             b2, c2 = g2.block()
@@ -435,9 +448,9 @@ def build_project(seed):
                   f"subroutine {uname}()"] + body + [f"end subroutine {uname}", f"end subroutine {host}"]
             units[host.lower()] = {uname.lower()}
         elif kd == "program":
-            prog_lines = [f"program {uname}", f"use {mod}", "implicit none", "integer :: n", "integer :: arr_arg(4)"] + decls + ["n = 3"] + body + [f"end program {uname}"]
+            prog_lines = [f"program {uname}", f"use {mod}", "implicit none", "integer :: n", "integer :: arr_arg(4)"] + decls + udecls + ["n = 3"] + body + [f"end program {uname}"]
         else:
-            ext_lines = [f"subroutine {uname}(n, arr_arg)", f"use {mod}", "implicit none", "integer, intent(in) :: n", "integer, intent(inout) :: arr_arg(:)"] + decls + body + [f"end subroutine {uname}"]
+            ext_lines = [f"subroutine {uname}(n, arr_arg)", f"use {mod}", "implicit none", "integer, intent(in) :: n", "integer, intent(inout) :: arr_arg(:)"] + decls + udecls + body + [f"end subroutine {uname}"]
         units[uname.lower()] = calls
     L.append(f"end module {mod}")
     files = {f"{mod}.f90": L}
